@@ -4,3 +4,6 @@ import streams_hdr
 
 def run(ctx):
     streams_hdr.run(ctx, fail_prefix="C17")
+    # partially defined time / attribute vectors (undefined entries must stay undefined)
+    streams_hdr.run(ctx, n_write=(600 if ctx.thorough else 150), n_mut=(1000 if ctx.thorough else 200), partial=True,
+                    fail_prefix="C17")
